@@ -144,4 +144,66 @@ example : 500 < Gen.dfaRows.length ∧ 50 < Gen.newlineActions.length := by deci
 example : rowCaseBlind { state := 1, conds := [], ivs := [(97, 5), (98, 7), (255, 5)] } = false := by decide +kernel
 example : rowNewlineOK [10008] [] { state := 1, conds := [], ivs := [(9, 3), (10, 4), (255, 3)] } = false := by decide +kernel
 
+/-! ### A block comment in PHP mode is skipped and changes nothing (C08, scanner half, second part) -/
+
+/-- the state after `/` and the states the scanner is in while it reads the body of `/* … */` (71: body, 72: the
+    same after a line terminator was counted, 73: after a `*`) -/
+def afterSlash : Nat := 145
+def cmtStates : List Nat := [71, 72, 73]
+def cmtStar : Nat := 73
+def tComment : Nat := 57411
+def tDocComment : Nat := 57412
+
+/-- the block that ends a block comment: returns no token, attaches one comment (T_COMMENT or T_DOC_COMMENT,
+    decided by the text), hands nothing back, continues in the start state -/
+def cmtExit (t : Nat) : Bool :=
+  match trOf t with
+  | some ti => !ti.emits && !ti.ffs.isEmpty && ti.ffs.all (fun f => f == tComment || f == tDocComment) && !ti.hold && ti.next == phpStart
+  | none => false
+
+/-- OBLIGATIONS (kernel-evaluated on the regenerated table, every outcome of the conditions) -/
+theorem cmt_enter : (rowsOfState phpStart).all (fun r => quietLanding (r.target 47) == some afterSlash) &&
+    (rowsOfState afterSlash).all (fun r => quietLanding (r.target 42) == some 71) = true := by decide +kernel
+theorem cmt_loop : cmtStates.all (fun st => (rowsOfState st).all (fun r => (List.range 256).all (fun b =>
+    (st == cmtStar && b == 47) ||
+    (match quietLanding (r.target b) with | some s => cmtStates.contains s | none => false)))) = true := by decide +kernel
+theorem cmt_exit : (rowsOfState cmtStar).all (fun r => cmtExit (r.target 47)) = true := by decide +kernel
+theorem cmt_exit_not_quiet : (rowsOfState cmtStar).all (fun r => quietLanding (r.target 47) == none) = true := by decide +kernel
+theorem cmt_rows_exist : (afterSlash :: cmtStates).all (fun st => !(rowsOfState st).isEmpty) = true := by decide +kernel
+
+/-- C08, scanner half, block comments in PHP mode: after `/*` the scanner reads ANY bytes — line terminators
+    included, whatever its conditions answer — without returning or attaching anything and stays in one of three
+    states, as long as the byte read in the after-`*` state is not `/`; there, `/` makes it attach exactly one comment
+    token, hand nothing back and continue in its start state: the token after the comment is scanned from the
+    same state as if the comment were not there. -/
+theorem block_comment_is_skipped (w : List Nat) (hw : ∀ b ∈ w, b < 256) :
+    ∀ st st', st ∈ cmtStates → WsRun st w st' → st' ∈ cmtStates ∧ ∀ r ∈ rowsOfState cmtStar, cmtExit (r.target 47) = true := by
+  have hexit : ∀ r ∈ rowsOfState cmtStar, cmtExit (r.target 47) = true := List.all_eq_true.mp cmt_exit
+  induction w with
+  | nil => intro st st' hst h; cases h; exact ⟨hst, hexit⟩
+  | cons b w ih =>
+    intro st st' hst h
+    cases h with
+    | cons _ _ s1 _ r _ hr hl hrest =>
+      have h1 := List.all_eq_true.mp cmt_loop st hst
+      have h2 := List.all_eq_true.mp h1 r hr
+      have hb : b < 256 := hw b (List.mem_cons_self ..)
+      have h3 := List.all_eq_true.mp h2 b (List.mem_range.mpr hb)
+      simp only [Bool.or_eq_true, Bool.and_eq_true, beq_iff_eq] at h3
+      have hs1 : s1 ∈ cmtStates := by
+        rcases h3 with ⟨h73, h47⟩ | h3
+        · -- the exit transition is not a quiet landing
+          exfalso
+          subst h73; subst h47
+          have hq := List.all_eq_true.mp cmt_exit_not_quiet r hr
+          rw [hl] at hq
+          simp at hq
+        · rw [hl] at h3
+          simpa using h3
+      exact ih (fun b' hb' => hw b' (List.mem_cons_of_mem _ hb')) s1 st' hs1 hrest
+
+/- the conditions are not vacuous: from the after-`*` state a `/` is NOT a quiet landing, every other byte is -/
+example : (rowsOfState cmtStar).all (fun r => quietLanding (r.target 47) == none && quietLanding (r.target 42) == some cmtStar) = true := by
+  decide +kernel
+
 end PhpVerif.Scanner
